@@ -51,6 +51,19 @@ def ingredients(rng, kbpk):
         ops["unwrap-fail-" + k] = ("unwrap", v)
     ops["load-ok"] = ("load", str(make_header(rng, rng.choice("ABCD"), rand_blocks(rng, 2), reserved=rs(rng, 2))))
     ops["load-ok-noblocks"] = ("load", "D0016" + rs(rng, 7) + "00" + rs(rng, 2))
+    # header strings an independent implementation may send: a pad block filled with something else than zeros, and field
+    # combinations that a cross-field rule might dislike once the fields of two different headers meet in one object
+    for v_, bs_ in (("B", 8), ("D", 16)):
+        fill = rng.choice("F9x ")
+        blk = "KS05a"
+        padlen = (-(16 + len(blk))) % bs_ or bs_
+        padlen = padlen if padlen >= 4 else padlen + bs_
+        pbs = "PB" + format(padlen, "02X") + fill * (padlen - 4)
+        body = v_ + "0000" + rs(rng, 2) + rng.choice("TDA") + rs(rng, 1) + rs(rng, 2) + rs(rng, 1) + "02" + "00" + blk + pbs
+        ops[f"load-ok-foreign-pad-{v_}"] = ("load", body[0] + str(len(body)).zfill(4) + body[5:])
+    ops["load-ok-D-algA"] = ("load", "D0016" + rs(rng, 2) + "A" + rs(rng, 1) + rs(rng, 2) + rs(rng, 1) + "0000")
+    ops["load-ok-B-algA"] = ("load", "B0016" + rs(rng, 2) + "A" + rs(rng, 1) + rs(rng, 2) + rs(rng, 1) + "0000")
+    ops["load-ok-A-algT"] = ("load", "A0016" + rs(rng, 2) + "T" + rs(rng, 1) + rs(rng, 2) + rs(rng, 1) + "0000")
     ops["load-fail-mid"] = ("load", fails["blocks-mid-failure"])
     ops["load-fail-version"] = ("load", "x" + g[1:])
     ops["setblock-new"] = ("setblock", (rs(rng, 2), rs(rng, rng.randrange(0, 9))))
@@ -150,7 +163,8 @@ def generate(rng, tier, seed):
     kbpk = rb(rng, 24)
     ops = ingredients(rng, kbpk)
     alpha = ["unwrap-ok-A", "unwrap-ok-B", "unwrap-ok-D", "unwrap-fail-blocks-mid-failure", "unwrap-fail-mac-mismatch", "unwrap-fail-reserved-then-mac-fail",
-             "unwrap-fail-bad-version", "load-ok", "load-fail-mid", "setblock-KS", "delblock-KS", "wrap",
+             "unwrap-fail-bad-version", "load-ok", "load-fail-mid", "setblock-KS", "delblock-KS", "wrap", "str",
+             "load-ok-foreign-pad-B", "load-ok-D-algA", "load-ok-A-algT",
              "setkbpk-other", "unwrap-other-key-B", "unwrap-other-key-D"]
     L = 2 if tier == "quick" else 3
     for ln in range(1, L + 1):
